@@ -109,6 +109,7 @@ class World:
         self.sent_chunks = []           # (part, requested, data) for the chunk-discipline oracle
         self.tag = None                 # request tag (C12)
         self.hb_ud = None
+        self.hb_fault = None            # (ui?, op, status word): one-shot heartbeat failure
         self.sim_errors = []
         self.dead = False               # the manager process has crashed: nothing has effect
         self.hook = None                # callable(event name) at durable-state step boundaries
@@ -374,6 +375,10 @@ def heartbeat(w, d, ui):
     op = d[0]
     size = 32 if ui else 16
     hb = w.hb
+    if w.hb_fault and w.hb_fault[0] == ui and w.hb_fault[1] == op:
+        sw = w.hb_fault[2]
+        w.hb_fault = None          # one-shot: an internal error of the heartbeat generation
+        raise SW(sw)
     if op == 1:
         if len(d) - 1 != size:
             raise SW(0x6B10 if not ui else 0x6A01)
